@@ -110,10 +110,13 @@ func verifWriteReady(op *FDOperator, vs [][]byte, ivs []syscall.Iovec) {
 //     ErrConcurrentAccess and touch neither buffer nor kernel)
 //  2: write timeout set: two successive Flush calls || poller || peer || timer expiry
 //  3: scenario 0 plus a local Close at any moment
+//  4: scenario 0 plus a peer hang-up reported by the poller at any moment (connection without
+//     callbacks: only the hang-up can wake the flusher)
+//  5: scenario 1 with two further goroutines calling Flush concurrently
 //
 //verif:po
-//verif:bounds 1-2 Flush calls of k in [1, 1<<20] bytes (scenario 2: k in [1,4], space <= 4, drain <= 8), socket space symbolic, <= 2 write-ready dispatches, 1 peer drain, timer may expire twice; output buffer summarised on its length; state revisits <= 3
-//verif:param 0 3
+//verif:bounds 1-2 Flush calls of k in [1, 1<<20] bytes (scenarios 2, 4, 5: k in [1,4], space <= 4, drain <= 8), socket space symbolic, <= 2 write-ready dispatches, 1 peer drain, timer may expire twice; output buffer summarised on its length; state revisits <= 3
+//verif:param 0 5
 //verif:loop 40
 //verif:poloop 3
 //verif:potimeout 400
@@ -121,10 +124,10 @@ func verifWriteReady(op *FDOperator, vs [][]byte, ivs []syscall.Iovec) {
 func verifHarness_C08_flush(sc int) {
 	c := verifNewConn(verifConnCfg{closeCBs: 1})
 	verifC08Conn = c
-	verifS = &verifSock{otherFlusher: sc == 1}
+	verifS = &verifSock{otherFlusher: sc == 1 || sc == 5}
 	// scenario 2 (two Flush calls, timer) is only decidable in time with small byte counts
 	lim := 1 << 20
-	if sc == 2 {
+	if sc == 2 || sc >= 4 {
 		lim = 4
 	}
 	sp := verifNondetInt64("space0")
@@ -166,23 +169,29 @@ func verifHarness_C08_flush(sc int) {
 		verifAssume(d <= 2*int64(lim))
 		atomic.AddInt64(&verifS.space, d)
 	})
+	second := func() {
+		// the Writer has one user at a time: another goroutine only calls Flush while the
+		// first one is inside Flush (it holds the flushing lock), never between the first
+		// one's Malloc and Flush
+		if atomic.LoadInt32(&c.keychain[flushing]) != 1 {
+			return
+		}
+		err := c.Flush()
+		verifAssert(err == nil || errors.Is(err, ErrConcurrentAccess) || errors.Is(err, ErrConnClosed), "C08/second-flush-unexpected-error")
+	}
 	switch sc {
 	case 1:
-		verifThread("flusher2", func() {
-			// the Writer has one user at a time: the second goroutine only calls Flush while the
-			// first one is inside Flush (it holds the flushing lock), never between the first
-			// one's Malloc and Flush
-			if atomic.LoadInt32(&c.keychain[flushing]) != 1 {
-				return
+		verifThread("flusher2", second)
+	case 5:
+		verifThread("flusher2", second)
+		verifThread("flusher3", second)
+	case 4:
+		verifThread("hup", func() {
+			p := op.poll.(*defaultPoll)
+			if op.do() {
+				p.appendHup(op)
 			}
-			before := atomic.LoadInt32(&verifS.sends)
-			err := c.Flush()
-			if err != nil && errors.Is(err, ErrConcurrentAccess) {
-				// rejected: it must not have touched the kernel
-				_ = before
-			} else {
-				verifAssert(err == nil || errors.Is(err, ErrConnClosed), "C08/second-flush-unexpected-error")
-			}
+			p.onhups()
 		})
 	case 2:
 		verifThread("timer", func() {
@@ -203,4 +212,50 @@ func verifHarness_C08_flush(sc int) {
 			verifAssert(atomic.LoadInt64(&verifS.space) == 0 || atomic.LoadInt32(&verifK.interest) == 2, "C08/flusher-blocked-with-space-and-no-write-interest")
 		}
 	})
+}
+
+// Sequential part: how the write timer is armed. A Flush that has to wait (socket full) on a
+// quiet connection, with a write deadline (possibly already expired) or a write timeout, with
+// or without a timer left from an earlier Flush. The clock is an arbitrary non-decreasing
+// instant. An expired deadline answers at once with ErrWriteTimeout; otherwise the timer is
+// armed with exactly deadline - now (or the timeout) and the call waits (a legitimate end).
+//
+//verif:bounds k in [1,8] bytes, socket full; deadline/timeout/clock symbolic; timer object fresh or reused
+//verif:loop 40
+//verif:replay interp
+//verif:blockok
+func verifHarness_C08_deadline() {
+	c := verifNewConn(verifConnCfg{closeCBs: 1})
+	verifC08Conn = c
+	verifS = &verifSock{}
+	verifTimerChk, verifTimerDl, verifTimerTo = "C08", 0, 0
+	if verifNondetBool("existing.timer") {
+		c.writeTimer = verifMakeTimer()
+	}
+	if verifNondetBool("use.deadline") {
+		dl := verifNondetInt64("deadline")
+		verifAssume(dl >= 1)
+		verifAssume(dl <= 1<<41)
+		c.writeDeadline = dl
+		verifTimerDl = dl
+		if verifNondetBool("timeout.too") {
+			c.writeTimeout = time.Second
+		}
+	} else {
+		to := verifNondetInt64("timeout")
+		verifAssume(to >= 0)
+		verifAssume(to <= 1<<41)
+		c.writeTimeout = time.Duration(to)
+		verifTimerTo = to
+	}
+	k := verifNondetInt("k")
+	verifAssume(k >= 1)
+	verifAssume(k <= 8)
+	c.Malloc(k)
+	verifReach("before-flush")
+	err := c.Flush()
+	// nothing drains the socket and nobody closes: only an expired deadline lets Flush return
+	verifAssert(err != nil && errors.Is(err, ErrWriteTimeout), "C08/flush-returned-on-a-full-quiet-socket")
+	verifAssert(verifTimerDl > 0 && verifTimerDl <= verifClock, "C08/timeout-before-the-deadline")
+	verifReach("end")
 }
